@@ -185,7 +185,8 @@ def unsplit_netloc(username, password, hostname, port):
 
     if auth:
         hostname = auth + "@" + hostname
-    if port:
+    # NOTE: 0 is a port too
+    if port is not None and port != "":
         hostname += ":" + str(port)
 
     return hostname
